@@ -30,8 +30,8 @@ Method: abstract interpretation of the function body over SYMBOLIC ARRAYS.
      public names x, y, z, r, theta, phi: the property bodies of `CellProp` are interpreted with the
      `coordlabels` dictionary the class passes to `_mesh_Nd_param` in its `__init__` (or that method's default)
      <mesh>.cell_numbers()        the method of the class is interpreted (`int_range(0, P-1).reshape(X+2, ...)`)
-  supported statements: assignment to plain names (also chained), tuple-unpacking of `.dims`, `Z[rows] = e` for a
-     `Z = np.zeros(n)` (see below), `return`; docstrings.
+  supported statements: assignment to plain names (also chained; `name: T = e` is `name = e`), tuple-unpacking of
+     `.dims`, `Z[rows] = e` for a `Z = np.zeros(n)` (see below), `return`; docstrings.
   supported expressions: names, integer / float constants, + - * / (elementwise, numpy broadcasting aligned from the
      right; two non-broadcast dimensions must agree in axis and symbolic length), `** <int const>`, unary minus,
      `np.abs`, `np.sin` (of a θ leaf only), `np.copy`, basic slicing with bounds `a`, `N+b`, `-a` or empty
@@ -39,6 +39,11 @@ Method: abstract interpretation of the function body over SYMBOLIC ARRAYS.
      (keeps the multi-index; raveled arrays only combine with raveled arrays of identical shape or scalars),
      `np.zeros(n)`, `np.tile(v, 3)`, `np.hstack([...])` (1-D / raveled blocks), `s[0:k]` on such a concatenation
      (k must be its full length), tuples, `csr_array((vals, (rows, cols)), shape=(S, S))`, sums of such matrices.
+  harmless spellings accepted as the form they abbreviate: `None` in an index = `np.newaxis`; `x.copy()` =
+     `np.copy(x)`; the builtin `abs(x)` = `np.abs(x)` (refused if any parsed module binds the name `abs`);
+     `np.concatenate([...])` of 1-D blocks without keywords = `np.hstack([...])`; `v.reshape(-1, 1)`,
+     `v.reshape(1, -1)`, `v.reshape(-1, 1, 1)`, ... of a 1-D array (exactly one -1, all other lengths 1) =
+     `v[:, np.newaxis]`, ... (a view of v); `csr_array(arg, (S, S))` = `csr_array(arg, shape=(S, S))`.
   CHECKS on `csr_array`: three value blocks, three row blocks, three column blocks, each of the shape of the
      interior; every row block is the interior `G[1:X+1, ...]`; the column blocks are the interior shifted by
      -1, 0, +1 along exactly one axis d (paired by position with the value blocks: these are the w, p, e
@@ -358,6 +363,51 @@ class MeshInfo:
 
 
 # ---------------------------------------------------------------------------------------------------------
+# harmless spellings (accepted as the form they abbreviate)
+# ---------------------------------------------------------------------------------------------------------
+def plain_assign(st):
+    """`name: T = e` (annotated assignment to a plain local name; the annotation of a local is not evaluated) is
+    the assignment `name = e`"""
+    if isinstance(st, ast.AnnAssign) and isinstance(st.target, ast.Name) and st.value is not None and st.simple:
+        new = ast.Assign(targets=[st.target], value=st.value)
+        ast.copy_location(new, st)
+        return ast.fix_missing_locations(new)
+    return st
+
+
+def is_newaxis(it):
+    """`np.newaxis` or its value, the literal `None`"""
+    if isinstance(it, ast.Attribute) and isinstance(it.value, ast.Name) and it.value.id == "np" and it.attr == "newaxis":
+        return True
+    return isinstance(it, ast.Constant) and it.value is None
+
+
+def module_bound_names(tree):
+    """names bound at module level (a module that rebinds `abs` does not get the builtin)"""
+    out = set()
+    for n in ast.walk(tree):
+        if isinstance(n, (ast.FunctionDef, ast.ClassDef, ast.AsyncFunctionDef)):
+            out.add(n.name)
+        elif isinstance(n, ast.alias):
+            out.add((n.asname or n.name).split(".")[0])
+        elif isinstance(n, ast.Name) and isinstance(n.ctx, (ast.Store, ast.Del)):
+            out.add(n.id)
+        elif isinstance(n, ast.arg):
+            out.add(n.arg)
+        elif isinstance(n, (ast.Global, ast.Nonlocal)):
+            out.update(n.names)
+    return out
+
+
+SHADOWED = set()        # every name bound anywhere in the modules parsed so far (conservative)
+
+
+def note_module(tree):
+    SHADOWED.update(module_bound_names(tree))
+    return tree
+
+
+# ---------------------------------------------------------------------------------------------------------
 # the interpreter
 # ---------------------------------------------------------------------------------------------------------
 class Interp:
@@ -374,6 +424,7 @@ class Interp:
                 raise Bad("statement after return")
             if isinstance(st, ast.Expr) and isinstance(st.value, ast.Constant) and isinstance(st.value.value, str):
                 continue
+            st = plain_assign(st)
             if isinstance(st, ast.Assign):
                 self.assign(st)
             elif isinstance(st, ast.Return):
@@ -684,8 +735,7 @@ class Interp:
         items = sl.elts if isinstance(sl, ast.Tuple) else [sl]
         spec = []
         for it in items:
-            if isinstance(it, ast.Attribute) and isinstance(it.value, ast.Name) and it.value.id == "np" \
-                    and it.attr == "newaxis":
+            if is_newaxis(it):
                 spec.append(None)
             elif isinstance(it, ast.Slice):
                 if it.step is not None:
@@ -758,8 +808,33 @@ class Interp:
             if any(a is None for a, _ in v.dims):
                 raise Bad(f".ravel() of an array with a broadcast dimension {v.shape()}")
             return Arr(v.dims, v.fn, kind=v.kind, raveled=v.raveled or len(v.dims) > 1)
+        if isinstance(f, ast.Attribute) and f.attr == "copy" and not node.args and not node.keywords \
+                and not (isinstance(f.value, ast.Name) and f.value.id == "np"):
+            # `x.copy()` on an array is `np.copy(x)` (a new array with the same elements)
+            if not isinstance(self.ev(f.value), Arr):
+                raise Bad(".copy() of a non-array")
+            return self.np_call("copy", ast.copy_location(ast.Call(func=f, args=[f.value], keywords=[]), node))
+        if isinstance(f, ast.Name) and f.id == "abs" and f.id not in self.env and f.id not in SHADOWED \
+                and len(node.args) == 1 and not node.keywords:
+            # the builtin `abs` of an array / a number is `np.abs` (ndarray.__abs__ is np.absolute)
+            v = self.ev(node.args[0])
+            if not (isinstance(v, Arr) and v.kind == "num"):
+                raise Bad("abs of a non-array")
+            return self.np_call("abs", ast.copy_location(ast.Call(func=f, args=node.args, keywords=[]), node))
         if isinstance(f, ast.Attribute) and f.attr == "reshape" and not node.keywords:
             v = self.ev(f.value)
+            if isinstance(v, Arr) and v.kind == "num" and not v.raveled and len(v.dims) == 1 and v.dims[0][0] is not None:
+                # a 1-D array reshaped to (-1, 1) / (1, -1) / (-1, 1, 1) ...: exactly one -1, all other lengths 1:
+                # the same as indexing with np.newaxis in the positions of the 1s
+                shp = node.args[0].elts if len(node.args) == 1 and isinstance(node.args[0], ast.Tuple) else node.args
+                ls = [self.ev(a) for a in shp]
+                if not (len(ls) >= 2 and all(isinstance(L, Poly) and L.is_const() for L in ls)
+                        and sorted(L.constval() for L in ls) == [-1] + [1] * (len(ls) - 1)):
+                    raise Bad(f"{ast.unparse(node)[:60]}: reshape of a 1-D array to something else than (-1, 1, ...)")
+                r = self.index(v, [(None, None) if L.constval() == -1 else None for L in ls], ast.unparse(node))
+                b = getattr(v, "_buf", None)
+                r._buf = v if b is None else b          # a VIEW of v (buffer identities are used by T-upw / T-avg)
+                return r
             if not isinstance(v, Range):
                 raise Bad(".reshape of something else than int_range")
             ls = [self.ev(a) for a in node.args]
@@ -806,21 +881,27 @@ class Interp:
             if not (isinstance(v, Arr) and v.is1d() and isinstance(n, Poly)):
                 raise Bad("np.tile arguments")
             return Cat([v] * n.constval())
-        if name == "hstack" and len(args) == 1 and isinstance(args[0], (ast.List, ast.Tuple)):
+        if name in ("hstack", "concatenate") and len(args) == 1 and isinstance(args[0], (ast.List, ast.Tuple)):
+            # np.concatenate of 1-D blocks (default axis 0, no keywords) is np.hstack of them
             blocks = [self.ev(e) for e in args[0].elts]
             for b in blocks:
                 if not isinstance(b, Arr):
-                    raise Bad("np.hstack of a non-array")
+                    raise Bad(f"np.{name} of a non-array")
                 if not b.is1d():
-                    raise Bad(f"np.hstack of an unraveled {len(b.dims)}-D block {b.shape()}")
+                    raise Bad(f"np.{name} of an unraveled {len(b.dims)}-D block {b.shape()}")
             return Cat(blocks)
         raise Bad(f"call np.{name}")
 
     def csr(self, node):
-        if len(node.args) != 1 or [k.arg for k in node.keywords] != ["shape"]:
+        # csr_array(arg1, shape=None, ...): the shape is the keyword `shape` or the second positional argument
+        if len(node.args) == 2 and not node.keywords:
+            shp_node = node.args[1]
+        elif len(node.args) == 1 and [k.arg for k in node.keywords] == ["shape"]:
+            shp_node = node.keywords[0].value
+        else:
             raise Bad("csr_array: expected csr_array((vals, (rows, cols)), shape=...)")
         a = self.ev(node.args[0])
-        shp = self.ev(node.keywords[0].value)
+        shp = self.ev(shp_node)
         if not (isinstance(a, Tup) and len(a.items) == 2 and isinstance(a.items[1], Tup) and len(a.items[1].items) == 2):
             raise Bad("csr_array: argument structure")
         vals, (rows, cols) = a.items[0], a.items[1].items
@@ -1017,7 +1098,7 @@ def generate(repo):
     src = os.path.join(repo, "src", "pyfvtool")
 
     def parse(f):
-        return ast.parse(open(os.path.join(src, f)).read())
+        return note_module(ast.parse(open(os.path.join(src, f)).read()))
     status, out = {}, [HEADER]
     mesh_tree = parse("mesh.py")
     mesh = MeshInfo(mesh_tree)
